@@ -23,6 +23,9 @@ StrFormat(n) == UNION {[1..m -> {cPLAIN, cPCT, cLBRACE, cRBRACE, cFMT}] : m \in 
 StrFormat2 == StrFormat(2) \cup {<<cLBRACE, cFMT, cRBRACE>>, <<cPCT, cPCT, cFMT>>, <<cPCT, cLT, cFMT>>}
 StrFormat3 == StrFormat(3)
 FormatPalette == {<<cPCT>>, <<cPCT, cPCT>>, <<cPCT, cFMT>>, <<cPLAIN, cPCT>>, <<cLBRACE, cFMT, cRBRACE>>, <<cLBRACE, cRBRACE>>, <<cPCT, cLT, cFMT>>}
+MemoryOnly == {"StringIO"}
+DevMode == {{"ModeEndsWithB"}}
+SinkPalette == {<<cPLAIN, cWIDE>>, <<cLT>>}
 DevEmptyCodec == {{"EmptyCodecDeclared"}}
 DevTextFilter == {{"TextSinkCodecFilter"}}
 DevBypass == {{"AsciiBypass"}}
